@@ -146,7 +146,7 @@ def run(ctx, shard):
     canon = None
     if full_all:
         try:
-            from pyoda_time.time_zones import TzdbDateTimeZoneSource
+            from pyoda_time.time_zones._tzdb_date_time_zone_source import TzdbDateTimeZoneSource
             canon = dict(TzdbDateTimeZoneSource.default.canonical_id_map)
         except Exception:  # noqa: BLE001
             canon = None
